@@ -22,28 +22,28 @@ LEVEL = "model_checking"
 MODULE = "Grouper"
 TRACE = "GrouperTrace"
 
-# shape -> (MaxSteps, MaxForeign) for the model check / the schedule export
+# shape -> (MaxSteps, MaxForeign, MaxOwner) for the model check / the schedule export
 SHAPES = {
-    "quick": {"<<1>>": (6, 2), "<<1,1>>": (7, 2), "<<1,2>>": (7, 2), "<<1,1,1>>": (8, 2), "<<1,2,3>>": (7, 1), "<<1,1,2>>": (7, 2)},
-    "thorough": {"<<1>>": (8, 3), "<<1,1>>": (9, 3), "<<1,2>>": (9, 3), "<<1,1,1>>": (10, 3), "<<1,2,3>>": (9, 2), "<<1,1,2>>": (9, 3)},
+    "quick": {"<<1>>": (6, 2, 1), "<<1,1>>": (7, 2, 1), "<<1,2>>": (7, 2, 1), "<<1,1,1>>": (8, 2, 1), "<<1,2,3>>": (7, 1, 1), "<<1,1,2>>": (7, 2, 1)},
+    "thorough": {"<<1>>": (8, 3, 2), "<<1,1>>": (9, 3, 2), "<<1,2>>": (9, 2, 2), "<<1,1,1>>": (10, 3, 2), "<<1,2,3>>": (9, 2, 1), "<<1,1,2>>": (9, 2, 2)},
 }
 EXPORT = {
-    "quick": {"<<1>>": (6, 2), "<<1,1>>": (7, 2), "<<1,2>>": (7, 2), "<<1,1,1>>": (8, 2), "<<1,2,3>>": (7, 1), "<<1,1,2>>": (7, 1)},
-    "thorough": {"<<1>>": (8, 3), "<<1,1>>": (9, 2), "<<1,2>>": (9, 2), "<<1,1,1>>": (10, 2), "<<1,2,3>>": (9, 1), "<<1,1,2>>": (9, 2)},
+    "quick": {"<<1>>": (6, 2, 1), "<<1,1>>": (7, 2, 1), "<<1,2>>": (7, 1, 1), "<<1,1,1>>": (8, 1, 1), "<<1,2,3>>": (7, 1, 1), "<<1,1,2>>": (7, 1, 1)},
+    "thorough": {"<<1>>": (8, 3, 2), "<<1,1>>": (9, 2, 2), "<<1,2>>": (9, 2, 1), "<<1,1,1>>": (10, 2, 1), "<<1,2,3>>": (9, 1, 1), "<<1,1,2>>": (9, 2, 1)},
 }
-DUMMY = dict(GroupOf="<<1>>", MaxSteps=0, MaxForeign=0)
+DUMMY = dict(GroupOf="<<1>>", MaxSteps=0, MaxForeign=0, MaxOwner=0)
 MODEL_INVS = ["TypeOK", "C18_SameGroup", "C18_Deterministic", "C18_Idempotent"]
 TRACE_INVS = ["C18_SameGroup", "C18_Deterministic", "C18_Idempotent", "D_NoError", "D_Shape", "D_ForeignApplied", "D_Consumed"]
-TRACE_PROPS = ["C18_ForeignPreservedTrace"]
+TRACE_PROPS = ["C18_ForeignPreservedTrace", "D_OwnerOnly"]
 
 
 def shape_list(s):
     return [int(x) for x in s.strip("<>").split(",")]
 
 
-def model_check(ctx, shape, steps, foreign):
+def model_check(ctx, shape, steps, foreign, owner):
     d = vlib.prepare_spec_dir(ctx, "mc-" + shape.strip("<>").replace(",", ""))
-    mod, cfg = vlib.write_model(d, MODULE, "Grouper_mc", dict(GroupOf=shape, MaxSteps=steps, MaxForeign=foreign), spec="Spec",
+    mod, cfg = vlib.write_model(d, MODULE, "Grouper_mc", dict(GroupOf=shape, MaxSteps=steps, MaxForeign=foreign, MaxOwner=owner), spec="Spec",
                                 invariants=MODEL_INVS, properties=["C18_ForeignPreserved"])
     r = vlib.tlc(ctx, d, mod, cfg, workers=4, timeout=1500, heap="4g")
     if not r.ok:
@@ -52,14 +52,14 @@ def model_check(ctx, shape, steps, foreign):
         ctx.stage("model-counterexample", shape=shape, violated=r.violated)
         return
     ctx.add_tlc(r)
-    ctx.stage("model-check", shape=shape, max_steps=steps, max_foreign=foreign, distinct=r.distinct, generated=r.generated,
+    ctx.stage("model-check", shape=shape, max_steps=steps, max_foreign=foreign, max_owner=owner, distinct=r.distinct, generated=r.generated,
               depth=r.depth, wall=round(r.wall, 1))
 
 
-def export_schedules(ctx, shape, steps, foreign):
+def export_schedules(ctx, shape, steps, foreign, owner):
     """every transition of the schedule graph -> shortest path to its source + the transition."""
     d = vlib.prepare_spec_dir(ctx, "gen-" + shape.strip("<>").replace(",", ""))
-    mod, cfg = vlib.write_model(d, TRACE, "Grouper_gen", dict(GroupOf=shape, MaxSteps=steps, MaxForeign=foreign), init="GenInit", next_="GenNext",
+    mod, cfg = vlib.write_model(d, TRACE, "Grouper_gen", dict(GroupOf=shape, MaxSteps=steps, MaxForeign=foreign, MaxOwner=owner), init="GenInit", next_="GenNext",
                                 view="GenView", action_constraints=["Edge"])
     r = vlib.tlc(ctx, d, mod, cfg, workers=1, timeout=1500, heap="4g")
     edges = []
@@ -69,16 +69,12 @@ def export_schedules(ctx, shape, steps, foreign):
             edges.append((json.dumps(e["s"], sort_keys=True), e["a"], json.dumps(e["t"], sort_keys=True)))
     if not edges:
         raise vlib.Infra("TLC exported no transitions for shape %s:\n%s" % (shape, vlib.tail_errors(r.out)))
-    # initial state = the only source that is never a target of a non-loop edge and has no group yet
+    # breadth-first search with one worker: the first transition TLC generates leaves the initial state
     succ = {}
     for s, a, t in edges:
         succ.setdefault(s, []).append((a, t))
-    targets = {t for s, a, t in edges if s != t}
-    inits = [s for s in succ if s not in targets]
-    if len(inits) != 1:
-        raise vlib.Infra("cannot identify the initial state of the schedule graph (%d candidates)" % len(inits))
-    path = {inits[0]: []}
-    frontier = [inits[0]]
+    path = {edges[0][0]: []}
+    frontier = [edges[0][0]]
     while frontier:
         nxt = []
         for s in frontier:
@@ -102,22 +98,41 @@ def export_schedules(ctx, shape, steps, foreign):
     return [json.loads(k) for k in keep], len(edges)
 
 
+FIELDS = ("queue", "mark", "backoff", "nodepool", "stamp")
+
+
 def skeleton(shape):
-    """orders and repeats that are always executed: every permutation of first reconciles, each pod
-    reconciled twice in a row, then every foreign field followed by a reconcile of each pod, twice."""
+    """schedules that are always executed for every kind:
+    A  every permutation of first reconciles, each pod reconciled twice in a row;
+    B  every foreign field (incl. a scheduler annotation on the PodGroup) then a pod reconciled twice;
+    C  foreign update, then a LEGITIMATE change of the workload (label / annotation added on the owner),
+       then a sibling reconciled twice: the write is expected, the foreign field must survive it;
+    D  owner label / annotation added with nothing else going on, every pod reconciled twice."""
     import itertools
     n = len(shape)
+    R = lambda p: {"n": "Reconcile", "p": p, "g": 0, "f": ""}
+    F = lambda g, f: {"n": "Foreign", "p": 0, "g": g, "f": f}
+    O = lambda k: {"n": "Owner", "p": 0, "g": 0, "f": k}
     out = []
     for perm in itertools.permutations(range(1, n + 1)):
         st = []
         for p in perm:
-            st += [{"n": "Reconcile", "p": p, "g": 0, "f": ""}] * 2
+            st += [R(p)] * 2
         out.append(st)
-    for f in ("queue", "mark", "backoff", "nodepool"):
+    allp = [R(q) for q in range(1, n + 1)]
+    for f in FIELDS:
         for p in range(1, n + 1):
-            st = [{"n": "Reconcile", "p": q, "g": 0, "f": ""} for q in range(1, n + 1)]
-            st += [{"n": "Foreign", "p": 0, "g": shape[p - 1], "f": f}] + [{"n": "Reconcile", "p": p, "g": 0, "f": ""}] * 2
-            out.append(st)
+            out.append(allp + [F(shape[p - 1], f)] + [R(p)] * 2)
+    for i, f in enumerate(FIELDS):
+        for k in ("l", "a"):
+            p = 1 + (i % n)            # the pod whose group gets the foreign update
+            q = n - (i % n)            # the sibling that is reconciled after the owner change
+            out.append(allp + [F(shape[p - 1], f), O(k), R(q), R(q), R(p), R(p)])
+    for k in ("l", "a"):
+        st = list(allp) + [O(k)]
+        for p in range(1, n + 1):
+            st += [R(p)] * 2
+        out.append(st)
     return out
 
 
@@ -127,9 +142,13 @@ def triage_all(scen):
     """all (predicate, class) pairs that fail at the first step where anything fails (else [])."""
     sc = scen[0]
     grp, exp, expsub = sc["grp"], sc["exp"], sc["expsub"]
-    done, dirty = set(), set()
+    done, dirty, odirty = set(), set(), set()
     fq, fn = set(), set()
+    ov = {"l": 0, "a": 0}
+    oval = lambda k: "" if k == 0 else "v%d" % k
+    ngroups = len(exp)
     prev = None
+    FOR = ("queue", "mark", "backoff", "nodepool", "stamp")
     DER = ("name", "min", "prio", "preempt", "sub", "owner", "topo")
     for ev in scen[1:]:
         out = []
@@ -142,14 +161,18 @@ def triage_all(scen):
                 fq.add(ev["g"])
             if ev["f"] == "nodepool":
                 fn.add(ev["g"])
+        elif ev["ev"] == "Owner":
+            ov[ev["f"]] = ev["k"]
+            dirty |= set(range(1, ngroups + 1))
+            odirty |= set(range(1, ngroups + 1))
         else:
             p = ev["p"]
             g = grp[p - 1]
             idem = p in done and g not in dirty
             if prev is not None:
                 for gi, old in enumerate(prev["groups"]):
-                    if old["ex"] and (not groups[gi]["ex"] or any(old[k] != groups[gi][k] for k in ("queue", "mark", "backoff", "nodepool"))):
-                        bad = [k for k in ("queue", "mark", "backoff", "nodepool") if groups[gi]["ex"] and old[k] != groups[gi][k]] or ["podgroup-gone"]
+                    if old["ex"] and (not groups[gi]["ex"] or any(old[k] != groups[gi][k] for k in FOR)):
+                        bad = [k for k in FOR if groups[gi]["ex"] and old[k] != groups[gi][k]] or ["podgroup-gone"]
                         out.append(("C18_ForeignPreservedTrace", "foreign-field-overwritten-" + "+".join(bad)))
                         break
             if idem and ev["wpg"] + ev["wpod"] + ev["wother"] > 0:
@@ -164,6 +187,7 @@ def triage_all(scen):
                     out.append(("C18_Idempotent", "writes-on-repeat"))
             done.add(p)
             dirty.discard(g)
+            odirty.discard(g)
         if ev["extra"] != 0:
             out.append(("C18_Deterministic", "undocumented-podgroup"))
         else:
@@ -175,6 +199,10 @@ def triage_all(scen):
                         bad.append("queue")
                     if (gi + 1) not in fn and gr["nodepool"] != e["nodepool"]:
                         bad.append("nodepool")
+                    if (gi + 1) not in odirty and gr["ol"] != oval(ov["l"]):
+                        bad.append("inherited-owner-label-not-propagated")
+                    if (gi + 1) not in odirty and gr["oa"] != oval(ov["a"]):
+                        bad.append("inherited-owner-annotation-not-propagated")
                     if bad:
                         out.append(("C18_Deterministic", "derived-" + "+".join(bad)))
                         break
@@ -285,13 +313,13 @@ def run(ctx):
     ctx.cov["kinds_covered"] = cat["entries"]
     ctx.cov["hub_gvks_covered"] = cat["hub_keys"]
     tier = "quick" if ctx.quick else "thorough"
-    for shape, (st, fo) in SHAPES[tier].items():
-        model_check(ctx, shape, st, fo)
+    for shape, (st, fo, ow) in SHAPES[tier].items():
+        model_check(ctx, shape, st, fo, ow)
     sched_path = os.path.join(ctx.scratch, "schedules.ndjson")
     total_edges = 0
     with open(sched_path, "w") as f:
-        for shape, (st, fo) in EXPORT[tier].items():
-            scheds, ne = export_schedules(ctx, shape, st, fo)
+        for shape, (st, fo, ow) in EXPORT[tier].items():
+            scheds, ne = export_schedules(ctx, shape, st, fo, ow)
             total_edges += ne
             sl = shape_list(shape)
             for s in skeleton(sl):
@@ -301,7 +329,7 @@ def run(ctx):
     ctx.cov["schedule_graph_transitions"] = total_edges
     trace = os.path.join(ctx.scratch, "trace.ndjson")
     args = ["-schedules", sched_path, "-out", trace, "-seed", str(ctx.seed)]
-    args += ["-cap", "10", "-random", "2", "-rlen", "7"] if ctx.quick else ["-cap", "120", "-random", "15", "-rlen", "10"]
+    args += ["-cap", "8", "-random", "2", "-rlen", "8"] if ctx.quick else ["-cap", "120", "-random", "15", "-rlen", "10"]
     p = vlib.run_harness(binary, args, timeout=3000)
     out = json.loads(p.stdout.strip().splitlines()[-1])
     ctx.stage("real-run", **out)
@@ -316,6 +344,8 @@ def run(ctx):
         "the expected derived fields per kind are written in harness/cmd/grouper/catalogue.go from docs/developer/pod-grouper.md and the plugins' doc comments",
         "owner objects are minimal unstructured objects (only the fields the plugins read); LWS startupPolicy LeaderReady, MPI delayed launcher, Ray legacy (no sub-groups) PodGroups and knative per-pod backward compatibility are state-dependent by design and not in the catalogue",
         "a merge patch with an empty body is not counted as a mutating call",
+        "OwnerChange = a label / annotation added to (then changed on) the object the PodGroups inherit metadata from (top owner; CronJob: the Job; Knative: the Revision; Grove: the PodGang; skip-top-owner kinds: the skipped owner); not run for kinds where the pod itself is that object (bare Pod, Spark driver): an annotated orphan pod is skipped by the reconciler by design",
+        "the foreign annotation is kai.scheduler/last-start-timestamp written on the PodGroup",
     ]
     validate(ctx, trace)
     ctx.cov["exhaustive"] = False  # exhaustive in the model; the real code runs a per-kind sample of the transition cover
